@@ -277,6 +277,14 @@ impl Transform {
                     // advances it at every use, so it cannot repeat a subtemplate
                     // that mentions the same ellipsis variable twice.
                     if iter.peek() == Some(&ellipsis) {
+                        // ... and it does not track ellipsis depth at all, so a
+                        // repeated subtemplate cannot contain an ellipsis itself:
+                        // ((b ...) ...) would never terminate.
+                        if Self::count_occurrences(template, ellipsis) > 0 {
+                            return Err(InvalidSyntax(
+                                "nested ellipses in a template are not supported".into(),
+                            ));
+                        }
                         for variable in &pattern.expanded_variables {
                             if Self::count_occurrences(template, variable) > 1 {
                                 return Err(InvalidSyntax(format!(
